@@ -485,3 +485,26 @@ func TestVerifC14Sim(t *testing.T) {
 		assumptions: []string{"sequentially consistent execution at statement granularity", "known finding D20 (a call that is *active* while its session is torn down) is excluded by letting the closer act at quiescence; its probe is replayed on every run"},
 		gen:         genC14Sim, run: func(c streamsCase, r *runCtx) { judgeC14Sim(c, runStreams(c, r), r) }})
 }
+
+// ---------- C19 (probe of known finding D20 only): a stream Close while the session is torn down because the peer went away ----------
+// net.Conn.Close of the adapter is Stream.Close; when the listener (or the peer) has just closed, the client session tears itself
+// down on the event loop. This test is never searched by the C19 check (0 cases in both tiers); it exists so that the probe of the
+// known finding can be replayed - and re-found with VERIF_PROBE_D20=1 should the tree change.
+
+func genC19TeardownProbe(t *rapid.T) streamsCase {
+	c := streamsCase{Cfg: defaultSimCfg}
+	c.Cfg.QueueCap = 64
+	var st sStream
+	st.C.Prog = []sOp{{K: "flush", N: 1}, {K: "yield"}, {K: "close"}}
+	st.S.Prog2 = []sOp{{K: "yield"}, {K: "sclose"}} // (no server reader: only the client's Close can be caught by the teardown)
+	c.Streams = []sStream{st}
+	c.Sched = genSchedPlanHot(t, 10, 1500, 3, 150)
+	return c
+}
+
+func TestVerifC19TeardownProbe(t *testing.T) {
+	runCheck(t, checkDef[streamsCase]{name: "TestVerifC19TeardownProbe", replayTries: 5,
+		rule:        "probe only: client flushes one byte and closes its stream while the server closes the session; generated schedule",
+		assumptions: []string{"sequentially consistent execution at statement granularity"},
+		gen:         genC19TeardownProbe, run: func(c streamsCase, r *runCtx) { judgeC14Sim(c, runStreams(c, r), r) }})
+}
